@@ -155,11 +155,20 @@ func runSchedule(sc Scenario, choices []int) result {
 		lg.Add(vt.Ev{"ev": "hook", "p": who, "point": point, "id": id})
 		sched.Gate(point)
 	}
+	var wirebuf []byte // the tail of what was written that may still hold an incomplete request
 	conn.React = func(p []byte) {
-		for _, m := range wireRe.FindAllStringSubmatch(string(p), -1) {
-			idmu.Lock()
-			wireID[m[1]] = m[2]
-			idmu.Unlock()
+		// however the library splits an element into transport writes, look at the byte stream
+		idmu.Lock()
+		defer idmu.Unlock()
+		wirebuf = append(wirebuf, p...)
+		last := 0
+		for _, m := range wireRe.FindAllSubmatchIndex(wirebuf, -1) {
+			wireID[string(wirebuf[m[2]:m[3]])] = string(wirebuf[m[4]:m[5]])
+			last = m[1]
+		}
+		wirebuf = wirebuf[last:]
+		if len(wirebuf) > 1<<16 {
+			wirebuf = wirebuf[len(wirebuf)-1<<12:]
 		}
 	}
 	defer func() { xmpp.VerifHook = nil }()
